@@ -15,6 +15,7 @@ carried by the correspondence and the byte-level oracle of props/c01.py, see `le
   values themselves.
 -/
 import Pyc.Proofs.NumText
+import Pyc.Proofs.Float32Grid
 import Pyc.Proofs.Sync
 import Pyc.Model.NumText
 import Pyc.Model.SaveMachine
@@ -52,6 +53,19 @@ theorem model_fixed_point {D B E : K → Prop} {a b a' g : K} (ha : D a) (hb : I
   apply Pyc.NumTextP.round_stable hb hg
   have := ha' a ha
   rwa [abs_sub_comm b a', abs_sub_comm b a] at this
+
+/-- The same, with the float32 side discharged: for EVERY float32 value q (normal or subnormal) that is not zero,
+    not ± a power of two (those are `pow2_table_ok`) and not the largest finite value, whatever set D of decimals the
+    writer rounds to and whatever tie rule E the parser uses: if q was read from some text a ∈ D and a' is the text
+    the writer emits for q (a nearest point of D), then reading a' gives q again. -/
+theorem float32_model_fixed_point {D E : ℚ → Prop} {a a' q : ℚ} (hq : IsF32 q) (h0 : q ≠ 0)
+    (hp : ∀ k : ℤ, |q| ≠ (2 : ℚ) ^ k) (hmax : |q| < (2 : ℚ) ^ 127) (ha : D a) (hb : IsRound IsF32 E a q)
+    (ha' : ∀ d, D d → |q - a'| ≤ |q - d|) : IsRound IsF32 E a' q := by
+  obtain ⟨m, e, hi, rfl⟩ := interior_of_f32 q hq h0 hp hmax
+  exact model_fixed_point ha hb (localGrid_f32 hi) ha'
+
+/-- non-vacuity of the float32 set and of interior points: 0.1f = 13421773 · 2^-27 -/
+example : Interior 13421773 (-27) := ⟨by norm_num, by norm_num, by norm_num, Or.inl (by norm_num), Or.inr (by norm_num)⟩
 
 open Pyc.NumText in
 /-- the powers of two, where the float32 spacing changes and `model_fixed_point` does not apply:
